@@ -338,7 +338,10 @@ func resolveAliases(p *Prog) {
 				} else if c.Type != r.Type {
 					// a variable or field whose representation changed (a map became an array, ...): only with a strong
 					// overlap of the functions that use it
-					if (c.Kind == "global" || c.Kind == "field") && jaccard(r.Refs, mapRefs(c)) >= 0.6 {
+					// ... or an unexported function or method whose parameter list changed (unused parameters dropped, a
+					// flag handed down): same owner, used by the same functions
+					isFn := (c.Kind == "func" || c.Kind == "method") && len(c.Name) > 0 && c.Name[0] >= 'a' && c.Name[0] <= 'z' && len(r.Refs) > 0
+					if (c.Kind == "global" || c.Kind == "field" || isFn) && jaccard(r.Refs, mapRefs(c)) >= 0.6 {
 						cands = append(cands, cand{r, c, jaccard(r.Refs, mapRefs(c)) - 0.05})
 						perRef[r]++
 					}
